@@ -336,7 +336,7 @@ func targetFrames(data []byte) error {
 func execFrames(data []byte) (deep bool, err error) {
 	o, stream := decodeFrameOpts(data)
 	wk := walk(stream)
-	if e := frameEntries[o.entry]; e != "ReadHeader" && e != "PayloadHelpers" {
+	if e := frameEntries[o.entry]; e != "ReadHeader" && e != "PayloadHelpers" && !(e == "ControlHandler" && !uncheckedPresent()) {
 		for _, w := range wk {
 			if w.h.Length > inProcCap {
 				hx.Class("frames/" + frameEntries[o.entry] + "/announced>64MiB-left-to-child-table")
@@ -664,12 +664,19 @@ func runFrames(o frameOpts, stream []byte) (deep bool, err error) {
 	case "ControlHandler":
 		for _, w := range walk(stream) {
 			h := toWS(w.h)
-			if !h.OpCode.IsControl() || ws.CheckHeader(h, o.state) != nil {
+			// o.skip: the header goes to the handler as it came off the wire,
+			// without ws.CheckHeader (which the type's doc calls optional) —
+			// any opcode, any announced length; otherwise only control
+			// headers that pass the check for this side.
+			if !o.skip && (!h.OpCode.IsControl() || ws.CheckHeader(h, o.state) != nil) {
 				continue
 			}
-			end := w.hdrEnd + int(h.Length)
-			if end > len(stream) {
-				end = len(stream)
+			if o.skip {
+				hx.Class("frames/ControlHandler/unchecked-header")
+			}
+			end := len(stream)
+			if h.Length < int64(len(stream)-w.hdrEnd) {
+				end = w.hdrEnd + int(h.Length)
 			}
 			psrc := tx.NewSrc(stream[w.hdrEnd:end], o.chunks)
 			psrc.EOFWithData = o.eofData
